@@ -141,6 +141,10 @@ func unmarshalList(buf []byte, ety cty.Type, path cty.Path) (cty.Value, error) {
 		return cty.ListValEmpty(ety), nil
 	}
 
+	if !cty.CanListVal(vals) {
+		return cty.NilVal, path.NewErrorf("all list elements must have the same type")
+	}
+
 	return cty.ListVal(vals), nil
 }
 
@@ -180,6 +184,10 @@ func unmarshalSet(buf []byte, ety cty.Type, path cty.Path) (cty.Value, error) {
 
 	if len(vals) == 0 {
 		return cty.SetValEmpty(ety), nil
+	}
+
+	if !cty.CanSetVal(vals) {
+		return cty.NilVal, path.NewErrorf("all set elements must have the same type")
 	}
 
 	return cty.SetVal(vals), nil
@@ -232,6 +240,10 @@ func unmarshalMap(buf []byte, ety cty.Type, path cty.Path) (cty.Value, error) {
 
 	if len(vals) == 0 {
 		return cty.MapValEmpty(ety), nil
+	}
+
+	if !cty.CanMapVal(vals) {
+		return cty.NilVal, path.NewErrorf("all map elements must have the same type")
 	}
 
 	return cty.MapVal(vals), nil
